@@ -5,6 +5,10 @@ Ops (JSON):
   {"op":"def", "ty": <cls type node>}                   define a class family (nested definitions included)
   {"op":"defsub", "name": N, "base": B, "fields": [[name, tyname, default_src]]}   subclass of an existing class
   {"op":"bind", "cls": name, "kind": "load"|"dump", "meta": {...}}                 LoadMeta/DumpMeta(**meta).bind_to(cls)
+        optional "names": {setting: name}  the setting's value is the object of that name in the namespace (a module-level constant
+                                           that several Metas refer to) instead of a fresh copy of meta[setting];
+        optional "obj": name               ns[name].bind_to(cls): one LoadMeta / DumpMeta object bound to several classes ("meta" then
+                                           only says what the object was made from)
   {"op":"load", "cls": name, "doc": <json>, "via": "fromdict"|"method"|"fromlist"|"method_list"|"json"|"json_list"|"yaml"|"toml"}
   {"op":"dump", "cls": name, "expr": <python expression building the instance in the family namespace>,
                 "via": "asdict"|"method"|"to_json"|"list_to_json"|"yaml"|"toml", "drop_keys": [keys left out of the recorded dict, at any depth]}
@@ -80,7 +84,12 @@ class World:
                 return ['defined']
             if k == 'bind':
                 cls = self.ns[op['cls']]
+                if op.get('obj'):
+                    self.ns[op['obj']].bind_to(cls)
+                    return ['bound']
                 meta = json.loads(json.dumps(op['meta']))
+                for key, nm in (op.get('names') or {}).items():
+                    meta[key] = self.ns[nm]
                 (LoadMeta if op['kind'] == 'load' else DumpMeta)(**meta).bind_to(cls)
                 return ['bound']
             if k == 'load':
@@ -244,6 +253,13 @@ def needed_defs(ops, i):
                 if not extra <= need_names:
                     need_names |= extra
                 changed = True
+        # the objects a needed bind refers to by name
+        for op in ops[:i]:
+            if op['op'] == 'bind' and op['cls'] in need_names:
+                refs = {nm for nm in [op.get('obj')] + list((op.get('names') or {}).values()) if nm}
+                if not refs <= need_names:
+                    need_names |= refs
+                    changed = True
     # a class name defined twice: only the latest definition before op i is what the op needs
     latest = {}
     for j, names in provides:
